@@ -28,21 +28,21 @@ VOUCHED_TIME = KaniUnit(
         Harness("c18_snapshot_with_writer_suspended_holding_lock", ["C18"], "AtomicBaseTime::snapshot",
                 "from every state a suspended writer can leave (any sequence, stable slot vouched, other slot arbitrary bits) with "
                 "the writer lock HELD forever: completes in one pass of its loop (unwinding assertion), returns the published "
-                "pair, never panics, never touches the lock", kind="proof", timeout=900, mod="atomic_base_time"),
+                "pair, never panics, never touches the lock", kind="proof", timeout=900, mod="atomic_base_time", unwind_is_property_in="AtomicBaseTime::snapshot"),
         Harness("c18_snapshot_lock_free", ["C18"], "AtomicBaseTime::snapshot",
-                "same, with no writer inside the critical section", kind="proof", timeout=900, mod="atomic_base_time"),
+                "same, with no writer inside the critical section", kind="proof", timeout=900, mod="atomic_base_time", unwind_is_property_in="AtomicBaseTime::snapshot"),
         Harness("c18_try_update_with_lock_held", ["C18"], "AtomicBaseTime::try_update",
                 "another writer holds the lock forever: returns false without waiting; sequence unchanged", kind="proof",
                 timeout=900, mod="atomic_base_time"),
         Harness("c18_try_update_lock_free", ["C18"], "AtomicBaseTime::try_update",
                 "lock free: applies the update iff not older than the current base time, advances the sequence by one, "
                 "releases the lock; the next snapshot returns the newest pair", kind="proof", covers=2, timeout=900,
-                mod="atomic_base_time"),
+                mod="atomic_base_time", unwind_is_property_in="AtomicBaseTime::snapshot"),
         Harness("c18_snapshot_under_interfering_writes", ["C18"], "AtomicBaseTime::snapshot",
                 "every atomic load of the reader is a preemption point at which up to W complete writes (real advance_once, lock "
                 "held by a writer that never releases it) may land: snapshot still returns a published pair, never panics, and "
                 "never reaches the blocking Mutex::lock (stubbed to fail)", kind="bounded",
-                bound="at most {W} interfering writes per snapshot call", covers=2, timeout=1500, mod="atomic_base_time"),
+                bound="at most {W} interfering writes per snapshot call", covers=2, timeout=1500, mod="atomic_base_time", unwind_is_property_in="AtomicBaseTime::snapshot"),
         Harness("c18_try_update_never_blocks", ["C18"], "AtomicBaseTime::try_update",
                 "never reaches the blocking Mutex::lock, lock held or free; cannot succeed while another writer holds the lock",
                 kind="proof", timeout=900, mod="atomic_base_time"),
